@@ -361,7 +361,11 @@ def vin_names_of(harness_file):
 
 
 def get_counterexample(h, res, prop, work):
-    cmd = [c for c in res["cbmc_cmd"] if c not in ("--json-ui", "--verbosity", "8")] + ["--property", prop["property"], "--trace", "--json-ui"]
+    base = list(res["cbmc_cmd"])
+    if "--verbosity" in base:
+        i = base.index("--verbosity")
+        del base[i:i + 2]
+    cmd = [c for c in base if c != "--json-ui"] + ["--property", prop["property"], "--trace", "--json-ui"]
     rc, out, err, wall = run(cmd, timeout=h["timeout"], mem_gb=h["mem_gb"])
     try:
         data = json.loads(out)
